@@ -130,4 +130,9 @@ pub trait Property {
     fn level() -> &'static str {
         "exploration"
     }
+    /// The same scenario through the in-process seams and through the real executables
+    /// (`bins` holds `find` and `xargs` built from /repo with the hooks feature off).
+    fn crosscheck(_sc: &Self::Sc, _ctx: &mut Ctx, _bins: &std::path::Path) -> crate::crosscheck::Xc {
+        crate::crosscheck::Xc::NotComparable
+    }
 }
